@@ -43,6 +43,7 @@ META = {
 }
 
 OPS = ('get', 'iterate', 'keys', 'assign', 'delete')
+DEFAULT_REGISTERED = (dict, list, tuple, OrderedDict, object)
 
 
 # ---------------------------------------------------------------------------
@@ -89,6 +90,10 @@ def families():
             return hasattr(C, 'bag')
     Bag = type('Bag', (), {'bag': ()}); SubBag = type('SubBag', (Bag,), {}); Other = type('Other', (), {})
     fams.append(('abc-bool-hook', [HasBag, Bag, SubBag], [Bag, SubBag, Other]))
+    # the builtin container types themselves (a registry may re-register them, or know none of them): instances of exactly
+    # dict / list / tuple, for which an evaluator could be tempted to skip the registry
+    Sd = type('Sd', (dict,), {}); Sl = type('Sl', (list,), {})
+    fams.append(('builtin-exact', [dict, list, tuple, Sd], [dict, list, tuple, Sd, Sl]))
     return fams
 
 
@@ -368,7 +373,8 @@ def global_child(seed, n_configs):
     pre = Glommer()
     name, registrable, classes = rng.choice(fams)
     instances = [make_instance(c) for c in classes]
-    order_all = configs(rng, registrable, False)
+    order_all = [(o, e) for o, e in configs(rng, registrable, False)
+                 if not any(ex and t in DEFAULT_REGISTERED for t, ex in zip(o, e))]   # (as in run(): no exact re-registration of default types)
     order, exacts = rng.choice(order_all)
 
     def make():
@@ -429,6 +435,8 @@ def run(ctx):
                 cfgs = cfgs[ctx.shard::ctx.nshards]
             for order, exacts in cfgs:
                 for default_types in (True, False):
+                    if default_types and any(ex and t in DEFAULT_REGISTERED for t, ex in zip(order, exacts)):
+                        continue    # would re-register a default type with another exact flag: left open by the statement (see META)
                     label = 'Glommer()' if default_types else 'Glommer(register_default_types=False)'
                     col.case((name, tuple(t.__name__ for t in order), exacts, default_types), len(order) >= 2)
                     run_config(col, 'glommer', glommer_driver(default_types), name, registrable, order, exacts, instances, contract, label)
